@@ -1,12 +1,22 @@
 import YaegiVerif.Proofs.C03Decl
+import YaegiVerif.Proofs.C03Const
 import YaegiVerif.Proofs.C03Block
 import YaegiVerif.Model.ConstClass
-/- C03: what the exact representability test (repair of F03) gives beyond "whatever Go accepts is accepted":
-   wherever the only check between an untyped integer constant and an integer type is `representableConst`
-   — a conversion `T(e)` of an untyped constant, a declaration `var c T = e` / `const c T = e` whose initialiser
-   reaches the assignment check untyped — the interpreter model also *rejects* exactly what Go rejects. -/
+/- C03: declarations with a declared integer type, both directions. The interpreter model has exactly the outcome of
+   the specification wherever the initialiser reaches the assignment check as the constant the specification gives it:
+   untyped operator expressions (which stay untyped under the pushed-down type since 7973ebe), literals, unary
+   operators, parentheses, conversions. What is left out is an operator applied to *typed* operands under a declared
+   type: the node takes the declared type before its operands are looked at (F03-18). -/
 namespace YaegiVerif.Proofs.C03
 open YaegiVerif YaegiVerif.Const
+
+/-- `Rel` is the relation `compare … = .same` of the full statement -/
+theorem compare_of_rel {r : Res NS} {g : Res Spec.GV} (h : Rel r g) : Class.compare r g = .same := by
+  rcases h.inv with ⟨n, gv, hr, hg, hinv⟩ | ⟨hr, hg⟩
+  · subst hr hg
+    rcases hinv.shape with ⟨_, _, _, rfl, hty, hrv⟩ | ⟨_, _, rfl, hty, hrv, _⟩ <;>
+      simp [Class.compare, Class.tyAgree, Class.sameVal, Class.absRV, hty, hrv, Spec.isFloatTy]
+  · subst hr hg; rfl
 
 /-! ### the assignment check is exact on an integer constant -/
 
@@ -19,14 +29,11 @@ theorem assign_exact (n : NS) (g : Spec.GV) (hinv : Inv n g) (k : IKind) :
         (Spec.isBoolTy (.u ka) && BT.i k == BT.bool)) = true := by rcases hka with rfl | rfl <;> rfl
     simp only [Spec.assignGo, hcond, if_true, Spec.representGo, CV.toInt]
     by_cases hr : Spec.reprGo k p = true
-    · have hcv := convertUntypedY_int n ka p k hty hrv hr
+    · have hcv := convertUntypedY_int n ka hka p k hty hrv hr
       simp [assignY, hty, Ty.untyped, hcv, materialiseY, hr]
     · have hr' : Spec.reprGo k p = false := by simpa using hr
-      have hrep : representableY F0 (.int p) (.i k) = false := by
-        simp only [representableY, CV.toInt]
-        show reprY Expected.C03.reprFacts k p = false
-        rw [reprY_eq_reprGo]; exact hr'
-      simp [assignY, hty, Ty.untyped, convertUntypedY, hrv, hrep, hr']
+      have hcv := convertUntypedY_int_none n ka hka p k hty hrv hr'
+      simp [assignY, hty, Ty.untyped, hcv, hr']
   · simp only [Spec.assignGo]
     by_cases hk : (BT.i k' == BT.i k) = true
     · have hkk : k' = k := by simpa using hk
@@ -63,16 +70,13 @@ theorem assignY_cases (n : NS) (g : Spec.GV) (hinv : Inv n g) (k : IKind) :
       -- an accepted assignment always materialises (shape analysis as in `assign_exact`)
       rcases hinv.shape with ⟨ka, p, hka, rfl, hty, hrv⟩ | ⟨k', p, rfl, hty, hrv, hp⟩
       · by_cases hr : Spec.reprGo k p = true
-        · have hcv := convertUntypedY_int n ka p k hty hrv hr
+        · have hcv := convertUntypedY_int n ka hka p k hty hrv hr
           simp [assignY, hty, Ty.untyped, hcv] at ha
           subst ha
           simp [materialiseY] at hx
         · have hr' : Spec.reprGo k p = false := by simpa using hr
-          have hrep : representableY F0 (.int p) (.i k) = false := by
-            simp only [representableY, CV.toInt]
-            show reprY Expected.C03.reprFacts k p = false
-            rw [reprY_eq_reprGo]; exact hr'
-          simp [assignY, hty, Ty.untyped, convertUntypedY, hrv, hrep] at ha
+          have hcv := convertUntypedY_int_none n ka hka p k hty hrv hr'
+          simp [assignY, hty, Ty.untyped, hcv] at ha
       · by_cases hk : k' = k
         · subst hk
           simp [assignY, hty, Ty.untyped] at ha
@@ -82,57 +86,11 @@ theorem assignY_cases (n : NS) (g : Spec.GV) (hinv : Inv n g) (k : IKind) :
     | crash => rw [ha] at hx; cases hx
     | unm w => rw [ha] at hx; cases hx
 
-/-! ### conversion of an untyped integer constant -/
+/-! ### typed declarations -/
 
-/-- `T(x)` for an untyped integer constant `x` that is not representable in `T` is rejected -/
-theorem convNode_untyped_reject (k : IKind) (c1 : NS) (p : Int)
-    (hrv : c1.rv = .c (.int p)) (hr : Spec.reprGo k p = false) :
-    convNodeY F0 (.i k) c1 = .reject := by
-  have hrep : representableY F0 (.int p) (.i k) = false := by
-    simp only [representableY, CV.toInt]
-    show reprY Expected.C03.reprFacts k p = false
-    rw [reprY_eq_reprGo]; exact hr
-  simp [convNodeY, hrv, hrep]
-
-/-- **`T(e)` for an untyped integer constant expression `e`** (any expression of the integer fragment that Go
-    accepts with an untyped type) and any integer type `T`: one walk of the interpreter gives exactly the outcome of
-    the specification — the converted constant when it is representable in `T`, a compile error when it is not. -/
-theorem conv_untyped_exact (i : Nat) (e : CExpr) (hs : intShape e = true) (hq : noRuneQuo i e = true)
-    (gv : Spec.GV) (hgo : Spec.evalGo i e = .ok gv) (hun : gv.ty.untyped = true) (k : IKind) :
-    Class.compare (evalY F0 { iota := i } none (.conv (.i k) e)) (Spec.evalGo i (.conv (.i k) e)) = .same := by
-  obtain ⟨c1, hc1, hinv⟩ := evalY_int_correct { iota := i } rfl e hs hq gv hgo
-  cases hc : Spec.evalGo i (.conv (.i k) e) with
-  | ok gv' =>
-    obtain ⟨n, hn, hi⟩ := evalY_int_correct { iota := i } rfl (.conv (.i k) e) (by simpa [intShape] using hs)
-      (by simpa [noRuneQuo] using hq) gv' hc
-    rw [hn]
-    rcases hi.shape with ⟨_, _, _, rfl, hty, hrv⟩ | ⟨_, _, rfl, hty, hrv, _⟩ <;>
-      simp [Class.compare, Class.sameVal, Class.absRV, hty, hrv, Spec.isFloatTy]
-  | reject =>
-    simp only [Spec.evalGo, hgo, bind_ok] at hc
-    rcases hinv.shape with ⟨ka, p, hka, rfl, hty, hrv⟩ | ⟨k', p, rfl, _, _, _⟩
-    · have hnum : Spec.isNumTy (.u ka) = true := by rcases hka with rfl | rfl <;> rfl
-      simp only [Spec.convGo, hnum, if_true, Spec.representGo, CV.toInt] at hc
-      have hr : Spec.reprGo k p = false := by
-        cases hrp : Spec.reprGo k p with
-        | false => rfl
-        | true => simp [hrp] at hc
-      have : evalY F0 { iota := i } none (.conv (.i k) e) = .reject := by
-        simp [evalY, hc1, convNode_untyped_reject k c1 p hrv hr]
-      rw [this]; rfl
-    · simp [Ty.untyped] at hun
-  | crash =>
-    simp only [Spec.evalGo, hgo, bind_ok, Spec.convGo] at hc
-    split at hc <;> (try split at hc) <;> cases hc
-  | unm w =>
-    simp only [Spec.evalGo, hgo, bind_ok, Spec.convGo] at hc
-    split at hc <;> (try split at hc) <;> cases hc
-
-/-! ### typed declarations whose initialiser reaches the assignment check as it is -/
-
-/-- initialisers on which the type pushed down by a typed declaration has no effect: literals, `iota`, unary
-    operators and parentheses over them, and conversions to integer types (whose operand gets no type from its
-    parent). A binary operator at the top of the chain would take the declared type as its own (F03-2). -/
+/-- initialisers on which the type pushed down by a typed declaration has no effect for syntactic reasons: literals,
+    `iota`, unary operators and parentheses over them, and conversions to integer types (whose operand gets no type
+    from its parent) -/
 def declShape : CExpr → Bool
   | .int _ | .rune _ | .iota => true
   | .un a x => isUnArith a && declShape x
@@ -162,7 +120,10 @@ theorem evalY_forced_irrelevant (env : Env) (hp2 : env.pass2 = false) (forced : 
   induction e with
   | un a x ih =>
     intro h; simp only [declShape, Bool.and_eq_true] at h
-    simp [evalY, ih h.2]
+    have hnot : (a == Act.not) = false := by
+      have ha := h.1
+      cases a <;> simp [isUnArith] at ha <;> rfl
+    simp [evalY, hnot, ih h.2]
   | par x ih => intro h; simp only [declShape] at h; simp [evalY, ih h]
   | conv t x _ => intro _; simp [evalY, hp2]
   | bin _ _ _ _ _ => intro h; simp [declShape] at h
@@ -174,111 +135,88 @@ theorem evalY_forced_irrelevant (env : Env) (hp2 : env.pass2 = false) (forced : 
   | bool _ => intro h; simp [declShape] at h
   | str _ => intro h; simp [declShape] at h
 
-/-- **`var c T = e` at package level**, `T` an integer type, `e` an initialiser of `declShape` that Go accepts as an
-    expression: the declaration has exactly the outcome of the specification — the value when the constant is
-    representable in `T` (or already of type `T`), a compile error otherwise. -/
-theorem typed_var_decl_exact (k : IKind) (e : CExpr) (hs : declShape e = true) (hq : noRuneQuo 0 e = true)
-    (gv : Spec.GV) (hgo : Spec.evalGo 0 e = .ok gv) :
+/-- the pushed-down integer type plays no part on either kind of initialiser -/
+theorem evalY_typed_forced (k : IKind) (e : CExpr) (hs : declShape e = true ∨ ufrag e = true) :
+    evalY F0 { iota := 0 } (some (.t (.i k))) e = evalY F0 { iota := 0 } none e := by
+  rcases hs with hs | hs
+  · exact evalY_forced_irrelevant { iota := 0 } rfl _ e hs
+  · exact (evalY_ufrag_indep e hs { iota := 0 } (some (.t (.i k)))
+      (fun f hf => by injection hf with hf; subst hf; rfl)).1
+
+theorem shape_intShape (e : CExpr) (hs : declShape e = true ∨ ufrag e = true) : intShape e = true := by
+  rcases hs with hs | hs
+  · exact declShape_intShape e hs
+  · exact ufrag_intShape e hs
+
+/-- **`var c T = e` at package level**, `T` an integer type, `e` an untyped operator expression (`ufrag`) or an
+    initialiser of `declShape`: the declaration has exactly the outcome of the specification — the value when the
+    constant is representable in `T` (or already of type `T`), a compile error otherwise, and a compile error when
+    the specification rejects `e` itself. -/
+theorem typed_var_decl_exact (k : IKind) (e : CExpr) (hs : declShape e = true ∨ ufrag e = true) (hl : litBound e = true) :
     varDeclY F0 (some (.i k)) e = Spec.declGo 0 (some (.i k)) e := by
-  have hi := declShape_intShape e hs
-  obtain ⟨n, hn, hinv⟩ := evalY_int_correct { iota := 0 } rfl e hi hq gv hgo
-  simp only [varDeclY, unmodelled, unmodelledU_int false e hi, Spec.declGo, hgo, bind_ok]
-  rw [evalY_forced_irrelevant { iota := 0 } rfl _ e hs]
-  show (evalY F0 { iota := 0 } none e).bind _ = _
-  rw [hn]
-  simp only [bind_ok]
-  exact assign_exact n gv hinv k
+  have hi := shape_intShape e hs
+  simp only [varDeclY, unmodelled_none, Spec.declGo]
+  rw [evalY_typed_forced k e hs]
+  rcases (evalY_int_rel { iota := 0 } rfl e hi hl).inv with ⟨n, gv, hr, hg, hinv⟩ | ⟨hr, hg⟩
+  · have hg' : Spec.evalGo 0 e = .ok gv := hg
+    rw [hr, hg']
+    simp only [bind_ok]
+    exact assign_exact n gv hinv k
+  · have hg' : Spec.evalGo 0 e = .reject := hg
+    rw [hr, hg']; rfl
 
-/-! ### typed constant declarations over literal chains -/
+/-- **`var c = e` at package level**, any expression of the integer fragment: exactly the outcome of the
+    specification (the value with its default type — `int32` for a rune constant since ebd86cd —, a compile error when
+    the constant does not fit its default type or `e` is rejected) -/
+theorem var_decl_exact (e : CExpr) (hi : intShape e = true) (hl : litBound e = true) :
+    varDeclY F0 none e = Spec.declGo 0 none e := by
+  simp only [varDeclY, unmodelled_none, Spec.declGo, F0_chk, Expected.C03.checkFacts, if_true]
+  rcases (evalY_int_rel { iota := 0 } rfl e hi hl).inv with ⟨n, gv, hr, hg, hinv⟩ | ⟨hr, hg⟩
+  · have hg' : Spec.evalGo 0 e = .ok gv := hg
+    rw [hr, hg']
+    simp only [bind_ok, defaultTypeY_int n gv hinv]
+    obtain ⟨k, hk⟩ := defaultGo_int gv n hinv
+    rw [hk]
+    exact assign_exact n gv hinv k
+  · have hg' : Spec.evalGo 0 e = .reject := hg
+    rw [hr, hg']; rfl
 
-/-- literals, `iota`, unary operators and parentheses: every walk of a constant declaration sees the same thing -/
-def litChain : CExpr → Bool
-  | .int _ | .rune _ | .iota => true
-  | .un a x => isUnArith a && litChain x
-  | .par x => litChain x
-  | _ => false
-
-theorem litChain_declShape : ∀ e, litChain e = true → declShape e = true := by
-  intro e
-  induction e with
-  | un a x ih => intro h; simp only [litChain, Bool.and_eq_true] at h; simp [declShape, h.1, ih h.2]
-  | par x ih => intro h; simp only [litChain] at h; simp [declShape, ih h]
-  | conv _ _ _ => intro h; simp [litChain] at h
-  | bin _ _ _ _ _ => intro h; simp [litChain] at h
-  | len _ _ => intro h; simp [litChain] at h
-  | int _ => intro _; rfl
-  | rune _ => intro _; rfl
-  | iota => intro _; rfl
-  | flt _ => intro h; simp [litChain] at h
-  | bool _ => intro h; simp [litChain] at h
-  | str _ => intro h; simp [litChain] at h
-
-theorem litChain_noRuneQuo (i : Nat) : ∀ e, litChain e = true → noRuneQuo i e = true := by
-  intro e
-  induction e with
-  | un a x ih => intro h; simp only [litChain, Bool.and_eq_true] at h; simp [noRuneQuo, ih h.2]
-  | par x ih => intro h; simp only [litChain] at h; simp [noRuneQuo, ih h]
-  | conv _ _ _ => intro h; simp [litChain] at h
-  | bin _ _ _ _ _ => intro h; simp [litChain] at h
-  | len _ _ => intro h; simp [litChain] at h
-  | int _ => intro _; rfl
-  | rune _ => intro _; rfl
-  | iota => intro _; rfl
-  | flt _ => intro h; simp [litChain] at h
-  | bool _ => intro h; simp [litChain] at h
-  | str _ => intro h; simp [litChain] at h
-
-/-- on a literal chain a walk depends on `iota` only: not on the pushed-down type, not on the walk -/
-theorem evalY_litChain_env (env : Env) (forced : Option Ty) :
-    ∀ e, litChain e = true → evalY F0 env forced e = evalY F0 { iota := env.iota } none e := by
-  intro e
-  induction e with
-  | un a x ih =>
-    intro h; simp only [litChain, Bool.and_eq_true] at h
-    simp [evalY, ih h.2]
-  | par x ih => intro h; simp only [litChain] at h; simp [evalY, ih h]
-  | conv _ _ _ => intro h; simp [litChain] at h
-  | bin _ _ _ _ _ => intro h; simp [litChain] at h
-  | len _ _ => intro h; simp [litChain] at h
-  | int _ => intro _; simp [evalY]
-  | rune _ => intro _; simp [evalY]
-  | iota => intro _; simp [evalY]
-  | flt _ => intro h; simp [litChain] at h
-  | bool _ => intro h; simp [litChain] at h
-  | str _ => intro h; simp [litChain] at h
-
-/-- **`const c T = e`, `T` an integer type, `e` a literal chain** (with `iota = i`, anywhere in a block): when Go
-    accepts the declaration, the three walks and the use yield Go's value (`SpecOk`, the per-spec hypothesis of
-    `iota_block_correct`); when Go rejects it — the constant is not representable in `T` — the first walk rejects it. -/
-theorem typed_const_decl_exact (i : Nat) (k : IKind) (e : CExpr) (hl : litChain e = true)
-    (gv : Spec.GV) (hgo : Spec.evalGo i e = .ok gv) :
+/-- **`const c T = e`, both directions**, `T` any integer type, `e` an untyped operator expression, for every `iota`
+    and wherever the spec stands in a block: when Go accepts the declaration all three walks and the use yield Go's
+    value (`SpecOk`); when Go rejects it the first walk of the interpreter rejects it. -/
+theorem typed_const_decl_exact (i : Nat) (k : IKind) (e : CExpr) (hs : ufrag e = true) (hl : litBound e = true) :
     (∀ v, Spec.declGo i (some (.i k)) e = .ok v → SpecOk F0 i (some (.i k)) e) ∧
     (Spec.declGo i (some (.i k)) e = .reject → ∀ first, constGtaY F0 i first (some (.i k)) e = .reject) := by
-  have hd := litChain_declShape e hl
-  have hi := declShape_intShape e hd
-  obtain ⟨n, hn, hinv⟩ := evalY_int_correct { iota := i } rfl e hi (litChain_noRuneQuo i e hl) gv hgo
-  obtain ⟨hacc, hrej⟩ := assignY_cases n gv hinv k
-  have hdecl : Spec.declGo i (some (.i k)) e = Spec.assignGo gv (.i k) := by simp [Spec.declGo, hgo]
-  have hgta : ∀ first, constGtaY F0 i first (some (.i k)) e = assignY F0 n (.i k) := by
+  have hi := ufrag_intShape e hs
+  have hnum : NumForced (some (.t (.i k))) := fun f hf => by injection hf with hf; subst hf; rfl
+  have hgta : ∀ first, constGtaY F0 i first (some (.i k)) e =
+      (evalY F0 { iota := i } none e).bind fun r1 => assignY F0 r1 (.i k) := by
     intro first
-    simp only [constGtaY, unmodelled, unmodelledU_int false e hi]
-    rw [evalY_litChain_env _ _ e hl]
-    show (evalY F0 { iota := i } none e).bind _ = _
-    rw [hn]; rfl
-  have hcfg : ∀ r1, constCfgY F0 i (some (.i k)) e r1 = assignY F0 n (.i k) := by
+    simp only [constGtaY, unmodelled_none]
+    rw [(evalY_ufrag_indep e hs { iota := i, inConst := true, noFrame := first } _ hnum).1]
+  have hcfg : ∀ r1, constCfgY F0 i (some (.i k)) e r1 =
+      (evalY F0 { iota := i } none e).bind fun r2 => assignY F0 r2 (.i k) := by
     intro r1
     simp only [constCfgY]
-    rw [evalY_litChain_env _ _ e hl]
-    show (evalY F0 { iota := i } none e).bind _ = _
-    rw [hn]; rfl
-  constructor
-  · intro v hv first
-    rw [hdecl] at hv
-    obtain ⟨m, hm, hmty, hmat⟩ := hacc v hv
-    refine ⟨m, m, v, by rw [hgta, hm], by rw [hcfg, hm], ?_, by rw [hdecl, hv]⟩
-    simp [constUseY, hmty, Ty.untyped, hmat]
-  · intro hr first
-    rw [hdecl] at hr
-    rw [hgta, hrej hr]
+    rw [(evalY_ufrag_indep e hs { iota := i, inConst := true, pass2 := true, typedDecl := true } _ hnum).1]
+  rcases (evalY_int_rel { iota := i } rfl e hi hl).inv with ⟨n, gv, hr, hg, hinv⟩ | ⟨hr, hg⟩
+  · have hg' : Spec.evalGo i e = .ok gv := hg
+    have hr' : evalY F0 { iota := i } none e = .ok n := hr
+    obtain ⟨hacc, hrej⟩ := assignY_cases n gv hinv k
+    have hdecl : Spec.declGo i (some (.i k)) e = Spec.assignGo gv (.i k) := by simp [Spec.declGo, hg']
+    constructor
+    · intro v hv first
+      rw [hdecl] at hv
+      obtain ⟨m, hm, hmty, hmat⟩ := hacc v hv
+      refine ⟨m, m, v, by rw [hgta, hr']; exact hm, by rw [hcfg, hr']; exact hm, ?_, by rw [hdecl, hv]⟩
+      simp [constUseY, hmty, Ty.untyped, hmat]
+    · intro hrj first
+      rw [hdecl] at hrj
+      rw [hgta, hr']; exact hrej hrj
+  · have hg' : Spec.evalGo i e = .reject := hg
+    have hr' : evalY F0 { iota := i } none e = .reject := hr
+    constructor
+    · intro v hv; simp [Spec.declGo, hg'] at hv
+    · intro _ first; rw [hgta, hr']; rfl
 
 end YaegiVerif.Proofs.C03
